@@ -131,8 +131,23 @@ Proof. exact block_unclosed_ins. Qed.
 Example C11_reach_nonvacuous :
   reach [49; 43; 50; 46; 53; 60; 61; 120]%N [50; 46; 53; 60; 61; 120]%N /\ reach [49; 43; 50; 46; 53; 60; 61; 120]%N [60; 61; 120]%N.
 Proof. exact reach_example. Qed.
-(* NOT PROVED (correspondence only): comments as the inserted gap (a comment inserted after a `/*` that never closes
-   does change the tokens, in the generated lexer too: see DESIGN), the fallback reading of quoted tokens. *)
+(* PROVED (comments as gaps): the same for any gap -- text that starts with a whitespace character and that the
+   hidden-channel automaton skips whatever follows it: whitespace, then block comments, line comments with their newline,
+   more whitespace, in any order (`gap_ok`, closed under concatenation) -- at any boundary before which no token is the
+   `/` of a `/*` that never closes (`reach_closed`).  Both side conditions are necessary, in the generated lexer too:
+   a comment glued to a `/` token is FHIRPath's own `//` or `/*` opener, and a comment inserted behind an opener that
+   never closes closes it. *)
+Theorem C11_lex_insert_gap : forall s b, reach_closed s b -> forall pre g f, s = pre ++ b -> gap_ok g ->
+  lex f (pre ++ g ++ b) = lex f (pre ++ b).
+Proof. exact lex_insert_gap. Qed.
+Theorem C11_gaps : (forall g, wsne g -> gap_ok g) /\ (forall g1 g2, gap_ok g1 -> gap_ok g2 -> gap_ok (g1 ++ g2)) /\
+  (forall w body nl, is_ws w = true -> forallb (fun c => negb (is_nl c)) body = true -> is_nl nl = true -> gap_ok (w :: 47 :: 47 :: body ++ [nl])%N) /\
+  (forall w body, is_ws w = true -> closes body -> gap_ok (w :: 47 :: 42 :: body ++ [42; 47])%N).
+Proof. exact (conj gap_ok_ws (conj gap_ok_app (conj gap_ok_line_comment gap_ok_block_comment))). Qed.
+Example C11_gap_nonvacuous : reach_closed [97; 47; 98]%N [98]%N /\ gap_ok ([32; 47; 42; 32; 99; 32; 42; 47] ++ [10])%N.
+Proof. exact reach_closed_example. Qed.
+(* NOT PROVED (correspondence only): the fallback reading of quoted tokens (a backslash taken as an ordinary character
+   because the escape-first reading finds no closing quote). *)
 Print Assumptions C11_lex_spaced_tokens.
 Print Assumptions C11_lex_whitespace_irrelevant.
 Print Assumptions C11_token_then_whitespace.
@@ -142,3 +157,5 @@ Print Assumptions C11_lex_insert_whitespace.
 Print Assumptions C11_scan_stable.
 Print Assumptions C11_literal_grammar_stable.
 Print Assumptions C11_unclosed_comment_stays_unclosed.
+Print Assumptions C11_lex_insert_gap.
+Print Assumptions C11_gaps.
